@@ -43,7 +43,7 @@
 EXTENDS HGBase, TLC, Json
 
 CONSTANTS D,          \* bound on the length of a history
-          Scenario,   \* which base objects are on the initial heap: "g0" | "g1" | "nodes" | "all" | "nest"
+          Scenario,   \* which base objects are on the initial heap: "g0" | "g1" | "nodes" | "all" | "nest" | "anon"
           Ops,        \* enabled operation names
           Wide,       \* BOOLEAN: the larger argument alphabets
           EmitHist,   \* BOOLEAN: print every history (tag HIST)
@@ -203,12 +203,15 @@ G1 == MkGraph("G1", <<"P", "Q", "R", "T">>, EmptyMap, Unset, Unset, 0, 0)
 N0 == [Blank EXCEPT !.kind = "node", !.name = "F", !.ins = <<"p", "q">>, !.outs = <<"r">>, !.dflt = <<"q">>]
 \* G0 with a binding made before the history starts (tag 0): what a graph node around it inherits
 GB == MkGraph("G0", <<"A", "B", "C">>, [p \in {"x"} |-> 0], Unset, Unset, 0, 0)
+\* an ANONYMOUS graph (Graph([...]) without name=): as_node must be given a name, which names the NODE only
+GA == MkGraph("", <<"A", "B", "C">>, EmptyMap, Unset, Unset, 0, 0)
 
 Base == CASE Scenario = "g0"    -> <<G0>>
           [] Scenario = "g1"    -> <<G1>>
           [] Scenario = "nodes" -> <<G0, N0, MkGNode(G0, 1, 0)>>
           [] Scenario = "all"   -> <<G0, G1, N0, MkGNode(G0, 1, 0)>>
           [] Scenario = "nest"  -> <<GB, MkGNode(GB, 1, 0)>>
+          [] Scenario = "anon"  -> <<GA>>
 NBase == Len(Base)
 
 (***************************************************************************)
@@ -256,6 +259,7 @@ Cands(o, i) ==
   \cup {Op("with_entrypoint", i, <<n>>) : n \in EntryNames}
   \cup {Op("add_nodes", i, <<n>>) : n \in ExtraNodes}
   \cup {Op("as_node", i, <<>>), Op("observe", i, <<>>), Op("run", i, <<>>)}
+  \cup {Op("as_node", i, <<nm>>) : nm \in NewNames}                 \* as_node(name = nm)
   ELSE IF o.kind = "outer" THEN
        {Op("bind", i, <<nm>>) : nm \in BindNames}
   \cup {Op("unbind", i, <<nm>>) : nm \in (DOMAIN o.bound) \cup (DOMAIN o.ibound)}   \* own or only inherited
@@ -287,7 +291,7 @@ Pre(o, e) ==
                              /\ Names(Cat[e.arg[1]].outs) \cap Names(o.outs) = {}
                              /\ Append(o.nodes, e.arg[1]) \in NodeLists
                              /\ DOMAIN o.bound \subseteq PlainValid[Append(o.nodes, e.arg[1])]
-    [] e.op = "as_node"   -> TRUE
+    [] e.op = "as_node"   -> e.arg # <<>> \/ o.name # ""        \* an anonymous graph needs as_node(name=...)
     [] e.op = "with_name" -> e.arg[1] # o.name
     [] e.op = "with_inputs"  -> LET m == PairsOf(e.arg, 1)
                                 IN PairKeys(m) \subseteq Names(o.ins) /\ NoDup(RenSeq(o.ins, m))
@@ -315,7 +319,7 @@ NewObj(o, e, k) ==
          MkGraph(o.name, o.nodes, o.bound, o.sel, IsSet(Dedup(o.entry.v \o e.arg, {}, 1)), e.tgt, k)
     \* rebuild from the combined node list, replay bind and select (entry points are not replayed)
     [] e.op = "add_nodes" -> MkGraph(o.name, Append(o.nodes, e.arg[1]), o.bound, o.sel, Unset, e.tgt, k)
-    [] e.op = "as_node"   -> MkGNode(o, e.tgt, k)
+    [] e.op = "as_node"   -> [MkGNode(o, e.tgt, k) EXCEPT !.name = IF e.arg = <<>> THEN o.name ELSE e.arg[1]]
     [] e.op = "with_name" -> [o EXCEPT !.name = e.arg[1], !.parent = e.tgt, !.born = k]
     [] e.op = "with_inputs" ->
          LET m == PairsOf(e.arg, 1)
